@@ -972,10 +972,14 @@ def run_z_methods(ctx, n, impl):
             _, evs, enc, line = m
             ctx.count("z:text:" + enc)
             exp, straddle = text_expected(enc, evs)
-            if r_ is None or not r_.startswith("ok:"):
+            if exp is None:
+                # not representable in the encoding: an error is what the property demands
+                if r_ is None:
+                    orc.append({"case": line, "base": "", "what": "no result (crash)", "known": None})
+                elif r_.startswith("ok:"):
+                    orc.append({"case": line, "base": "", "what": "a character %s cannot represent was written with no error" % enc, "known": "K18"})
+            elif r_ is None or not r_.startswith("ok:"):
                 orc.append({"case": line, "base": "", "what": "method=text transformation failed: %r" % (r_ and r_[:120],), "known": "K-C08-2" if straddle else None})
-            elif exp is None:
-                orc.append({"case": line, "base": "", "what": "a character %s cannot represent was written with no error" % enc, "known": "K18"})
             elif bytes.fromhex(r_[3:]) != exp:
                 orc.append({"case": line, "base": "", "what": "method=text output is not the concatenated text in %s: got %s expected %s" % (enc, r_[3:][:200], exp.hex()[:200]), "known": None})
         else:
